@@ -143,31 +143,32 @@ theorem ising_pairs_terms {α : Type} [DecidableEq α] (pairs : List (α × α))
   rw [mem_dedup]
   simp only [List.mem_flatMap, List.mem_cons, List.not_mem_nil, or_false]
 
-/-- 2-D builder, partial: on every grid with at least two cells the terms are one field term per cell
-    and one coupling term per neighbour pair of `nn_pairs_grid`.  (The restriction is necessary:
-    see `ising_grid_1x1_empty`.) -/
-theorem ising_grid_terms_partial (rows cols : Nat) (h : 2 ≤ rows * cols) :
-    ∃ sites : List Cell,
-      isingGrid rows cols = sites.map fieldTerm ++ (nnPairs rows cols).map couplingTerm ∧
-      sites.Nodup ∧ ∀ c, c ∈ sites ↔ InGrid rows cols c := by
-  obtain ⟨sites, h1, h2, h3⟩ := ising_pairs_terms (nnPairs rows cols)
-  refine ⟨sites, h1, h2, ?_⟩
-  intro c
-  rw [h3]
+/-- 2-D builder (after the repair of F-C19a): on EVERY grid, 1 x 1 included, the terms are one field term per
+    cell of the grid and one coupling term per neighbour pair of `nn_pairs_grid`. -/
+theorem ising_grid_terms (rows cols : Nat) :
+    isingGrid rows cols =
+        (gridCells rows cols).map fieldTerm ++ (nnPairs rows cols).map couplingTerm ∧
+      (gridCells rows cols).Nodup ∧ ∀ c, c ∈ gridCells rows cols ↔ InGrid rows cols c :=
+  ⟨isingPairsSites_eq _ _, gridCells_nodup rows cols, mem_gridCells rows cols⟩
+
+/-- The former witness of F-C19a, now the expected value: on the 1 x 1 grid the builder yields exactly the field
+    term of its only cell. -/
+theorem ising_grid_1x1 : isingGrid 1 1 = [fieldTerm (0, 0)] ∧ InGrid 1 1 (0, 0) := by decide
+
+/-- The pair-list entry point without a site list still takes the sites from the pairs (documented assumption of
+    `_abstract_ising_model`): every cell of a grid with at least two cells occurs in a pair, so both site lists agree
+    as sets there. -/
+theorem ising_grid_sites_agree (rows cols : Nat) (h : 2 ≤ rows * cols) (c : Cell) :
+    InGrid rows cols c ↔ ∃ pr ∈ nnPairs rows cols, c = pr.1 ∨ c = pr.2 := by
   constructor
+  · exact cell_in_some_pair rows cols h c
   · rintro ⟨⟨a, b⟩, hp, hc⟩
     have := (mem_nnPairs rows cols a b).1 hp
     rcases hc with rfl | rfl
     · exact this.1
     · exact this.2.1
-  · exact cell_in_some_pair rows cols h c
 
 example : (2 : Nat) ≤ 1 * 2 := by decide
-
-/-- Witness that the full statement is false of the code (finding F-C19a): on the 1 x 1 grid the
-    builder produces no term at all although the cell `(0, 0)` lies in the grid and the documented
-    sum contains its field term. -/
-theorem ising_grid_1x1_empty : isingGrid 1 1 = [] ∧ InGrid 1 1 (0, 0) := by decide
 
 /-! ### `TTNO.from_tensor`: which leg ends up where -/
 
